@@ -1,5 +1,6 @@
 /- Line-protocol driver for C14 (tokenizer): buffered model, byte automaton, translated tables. -/
 import PdfVerif.Model.Lexer
+import PdfVerif.Model.LexScan
 
 open PdfVerif PdfVerif.Lexer PdfVerif.Gen.LexTables
 
@@ -34,6 +35,26 @@ def answer (line : String) : String :=
     match bytesOfHex h with
     | some data => showLine (specLex data)
     | none => "bad-op"
+  | ["mode.after", h] =>
+    match bytesOfHex h with
+    | some data => (modeAfter data).pyName ++ (if Complete (modeAfter data) then " complete" else " open")
+    | none => "bad-op"
+  | ["spec.concat", ha, hw, hb] =>
+    match bytesOfHex ha, bytesOfHex hw, bytesOfHex hb with
+    | some a, some ws, some b =>
+      if Complete (modeAfter a) then showLine (concatLex a ws b) else "open"
+    | _, _, _ => "bad-op"
+  | ["gen.call", m, cur, tpos, paren, oct, hex, pos, buf] =>
+    -- one scanner call assembled from the REGENERATED parts (Gen/LexScan.lean) on the buffer `buf`
+    match modeOfPyName m, bytesOfHex cur, tpos.toNat?, paren.toInt?, bytesOfHex oct, bytesOfHex hex, pos.toNat?,
+          bytesOfHex buf with
+    | some m, some cur, some tpos, some paren, some oct, some hex, some pos, some buf =>
+      showCall (genCall { mode := m, cur := cur, tpos := tpos, paren := paren, oct := oct, hex := hex } buf pos) pos
+    | _, _, _, _, _, _, _, _ => "bad-op"
+  | "spec.join" :: hw :: hs =>
+    match bytesOfHex hw, hs.mapM bytesOfHex with
+    | some ws, some parts => " ".intercalate ((tokValues (specLex (joinWith ws parts))).map Token.show)
+    | _, _ => "bad-op"
   | ["table", n] => (tableByName n).getD "bad-op"
   | _ => "bad-op"
 
